@@ -66,9 +66,29 @@ def _impl_verdict(case):
         path = re.findall(r"sid='(S\d+)'", str(run.exc))
         return 'rejected', path, began
     if oc.startswith('AssertionError') and 'incomparable' in str(run.exc):
-        return 'incomparable', None, began
+        return 'incomparable', str(run.exc), began
     if oc == 'ok': return 'accepted', None, began
     return 'other:' + oc[:60], None, began
+
+
+def parse_interval(txt):
+    """TieredInterval.__repr__: add tiers ':'-joined | ext tiers ':'-joined (pre_length)"""
+    m = re.fullmatch(r"([-\d:]*)\|([-\d:]*)\((\d+)\)", txt.strip())
+    if not m: return None
+    add = [int(x) for x in m.group(1).split(':') if x != '']; ext = [int(x) for x in m.group(2).split(':') if x != '']
+    return (int(m.group(3)), len(add), add + ext)
+
+
+def genuinely_incomparable(msg, model):
+    """F9 is about delays that ARE incomparable (a tier that is additive in the smaller-looking one and extending in the
+    other); an 'incomparable' assertion for a pair that the specification's order (Time/Spec.v ilt, proved equal to the
+    translated __lt__) does compare is something else.  Without the model or a parsable message the answer is no."""
+    m = re.search(r"(\S+) and (\S+) are incomparable", msg or '')
+    if not m or model is None: return False
+    a, b = parse_interval(m.group(1)), parse_interval(m.group(2))
+    if a is None or b is None: return False
+    f = lambda i: f'{i[0]} {i[1]} {len(i[2])} ' + ' '.join(map(str, i[2]))
+    return model.ask(f's_ilt {f(a)} {f(b)}') == 'assert'
 
 
 def model_verdict(case, model, start_order):
@@ -197,7 +217,7 @@ def run(out, info, tier, seed):
         if iv == 'hang' and not conv and 'F9h' in kf:
             hangs.append(desc)
         elif iv == 'incomparable':
-            if not conv and 'F9' in kf: known.append(desc)
+            if not conv and 'F9' in kf and genuinely_incomparable(ipath, model): known.append(desc)
             else: violations.append(dict(desc, expected='rejected' if spec else 'accepted', observed=iv))
         elif iv not in ('accepted', 'rejected'):
             violations.append(dict(desc, expected='rejected' if spec else 'accepted', observed=iv))
